@@ -430,7 +430,10 @@ def main(argv=None):
         if f is not None:
             oracle_fail.append((idx, f))
     t_impl = time.time() - t_impl
-    src_cov = source_coverage_report(cov, sorted(src_sha)) if cov is not None else None
+    cov_files = sorted(src_sha)
+    if os.environ.get("VERIF_COVERAGE_ALL"):      # tools/source_coverage.py: every module, not only the anchored ones
+        cov_files = sorted(os.path.relpath(os.path.join(d, f), REPO) for d, _, fs in os.walk(os.path.join(REPO, "praatio")) for f in fs if f.endswith(".py"))
+    src_cov = source_coverage_report(cov, cov_files) if cov is not None else None
 
     linesF, linesX, idxX = [], [], []
     for idx, c in enumerate(cases):
